@@ -225,7 +225,10 @@ func (proc *Processor) ExecuteStatement(ctx context.Context, stmt parser.Stateme
 						}
 					} else if !proc.Tx.Flags.ExportOptions.StripEndingLineBreak &&
 						!(proc.Tx.Session.OutFile() != nil && exportOptions.Format == option.FIXED && exportOptions.SingleLine) {
-						_, err = writer.Write([]byte(proc.Tx.Flags.ExportOptions.LineBreak.Value()))
+						var lb []byte
+						if lb, err = endingLineBreak(exportOptions); err == nil {
+							_, err = writer.Write(lb)
+						}
 					}
 				}
 
